@@ -23,6 +23,8 @@ def random_sig(rng):
     rl = rng.choice([1, 8, 20, 31, 32, 33])
     sl = rng.choice([1, 8, 31, 32, 33])
     r, s = rb(rng, rl), rb(rng, sl)
+    if sl > 2 and rng.random() < 0.15:
+        s = s[:-2] + b"\x90\x00"
     first = rng.choice([0x30, 0x30, 0x31])
     trailing = rb(rng, rng.choice([0, 0, 0, 2]))
     return der_sig(r, s, first=first, trailing=trailing)
@@ -37,7 +39,10 @@ def bval(rng, n):
     return rng.choice([bytes(n), b"\xff" * n, b"\x00" + rb(rng, n - 1), b"\x00\x00" + rb(rng, n - 2),
                        rb(rng, n - 1) + b"\x00", b"\x80" + rb(rng, n - 1), rb(rng, n // 2) + b"\x00" + rb(rng, n - n // 2 - 1),
                        bytes(rng.choice(b"0123456789abcdefABCDEF") for _ in range(n)), b"\x0a" + rb(rng, n - 1),
-                       rb(rng, n - 1) + b"\x0a", b"\x20" + rb(rng, n - 2) + b"\x20"])
+                       rb(rng, n - 1) + b"\x0a", b"\x20" + rb(rng, n - 2) + b"\x20",
+                       # values ending like a status word (a transport layer that trims "its" trailer)
+                       rb(rng, n - 2) + b"\x90\x00", rb(rng, n - 2) + b"\x90\x00", rb(rng, n - 2) + b"\x6a\x87",
+                       rb(rng, n - 2) + b"\x61\x00"])
 
 
 def random_device(rng):
